@@ -45,16 +45,16 @@ func opGate() []uint64   { return []uint64{7} }
 // every configuration reachable by one change from the tables must be in the table: build a closed table
 func closedCfgTab() [][]srv {
 	return [][]srv{
-		cfgSAB,                                              // 9000
-		cfg4,                                                // 9001  + D voter
-		cfgAnv,                                              // 9002  A demoted
-		cfg2,                                                // 9003  A removed
-		cfgSnv,                                              // 9004  self demoted
-		{{0, 1, 1}, {0, 2, 2}, {0, 3, 3}, {1, 4, 4}},       // 9005  + D non-voter
-		{{0, 2, 2}, {0, 3, 3}},                              // 9006  self removed
+		cfgSAB, // 9000
+		cfg4,   // 9001  + D voter
+		cfgAnv, // 9002  A demoted
+		cfg2,   // 9003  A removed
+		cfgSnv, // 9004  self demoted
+		{{0, 1, 1}, {0, 2, 2}, {0, 3, 3}, {1, 4, 4}},            // 9005  + D non-voter
+		{{0, 2, 2}, {0, 3, 3}},                                  // 9006  self removed
 		{{0, 1, 1}, {0, 2, 2}, {0, 3, 3}, {0, 4, 4}, {0, 5, 5}}, // 9007
-		{{0, 1, 1}},                                         // 9008
-		{{0, 1, 1}, {0, 2, 2}},                              // 9009
+		{{0, 1, 1}},            // 9008
+		{{0, 1, 1}, {0, 2, 2}}, // 9009
 	}
 }
 
